@@ -416,7 +416,49 @@ def descent_searches(tree, fn):
         hc = [z for z in walk(h.body) if is_search(z)]
         if hc:
             helpers.append((y, h, hc))
+    # a local closure (`auto step = [&]() {...};`, never reassigned, every use a direct call) is code of fn itself: its body
+    # runs wherever it is called.  A closure that is used in any other way (copied, passed on, address taken) is not followed.
+    for d, lam in local_closures(fn).items():
+        h = fn.tu.by_did.get(lam["fn"]) if getattr(fn, "tu", None) is not None else None
+        if h is None or h.body is None:
+            continue
+        hc = [z for z in walk(h.body) if is_search(z)]
+        if not hc:
+            continue
+        sites = closure_call_sites(fn, d, lam)
+        if sites is None:
+            raise dtable.Undecidable("%s: the closure %s contains an in-node search and is used other than by calling it"
+                                     % (fn.nloc(lam), dtable.describe(lam)[:60]))
+        if any(y2["k"] == "LambdaExpr" for y2 in walk(h.body)):
+            raise dtable.Undecidable("%s: a closure with an in-node search contains another closure" % fn.nloc(lam))
+        for y in sites:
+            helpers.append((y, h, hc))
     return own, helpers
+
+
+def local_closures(fn):
+    """{decl id: LambdaExpr} for the locals of fn that are initialised with a non-generic lambda and never assigned"""
+    out = {}
+    for n in walk(fn.body):
+        if n["k"] == "VarDecl" and kids(n) and kids(n)[0] is not None:
+            lam = peel(kids(n)[0])
+            if lam is not None and lam["k"] == "LambdaExpr" and "fn" in lam:
+                out[n["did"]] = lam
+    return {d: lam for d, lam in out.items() if not writes_to(fn.body, {d})}
+
+
+def closure_call_sites(fn, d, lam):
+    """the calls closure(args) of the local closure d in fn; None if d is mentioned in any other way"""
+    sites, called = [], set()
+    for y in walk(fn.body):
+        fc = match.functor_call(y) if "callee" in y else None
+        if fc is not None and ref_of(strip_casts(fc[0])) == d and y["callee"].get("did") == lam["fn"]:
+            sites.append(y)
+            called |= {x.get("id") for x in walk(fc[0])}
+    for y in walk(fn.body):
+        if y["k"] == "DeclRefExpr" and ref_of(y) == d and y.get("id") not in called:
+            return None
+    return sites
 
 
 def searched_node_is_result_of(fn, own, y):
@@ -438,7 +480,12 @@ def check_descent(ck, tree):
     for name, want in SEARCH_ROLE.items():
         for fn in tree.find(name):
             own, helpers = descent_searches(tree, fn)
-            calls = own + [(h, z) for _, h, hc in helpers for z in hc]
+            calls, seen = list(own), set()
+            for _, h, hc in helpers:                 # a helper / closure called from several places counts once
+                for z in hc:
+                    if z.get("id") not in seen:
+                        seen.add(z.get("id"))
+                        calls.append((h, z))
             need = MIN_SEARCH_CALLS.get(name, 2)
             if len(calls) < need:
                 raise dtable.Undecidable("%s: %s() is expected to descend with at least %d in-node searches, found %d"
@@ -450,7 +497,15 @@ def check_descent(ck, tree):
                 o, z = wrong[0]
                 if value_use(o, z) is None:
                     raise dtable.Undecidable("%s: use of the result of %s not understood" % (o.nloc(z), dtable.describe(z)))
-                if o is not fn:
+                if o is not fn and o.kind == "lambda":
+                    # the other search sits in a local closure that fn calls directly: code of fn itself.  A closure that holds
+                    # both searches may choose between them by a flag
+                    if any(z2["callee"]["name"] == want for o2, z2 in calls if o2 is o):
+                        site = [y for y, h, _ in helpers if h is o]
+                        raise dtable.Undecidable("%s: %s() calls a closure that searches with both %s and %s; which one is the "
+                                                 "descent of %s() is not understood" % (fn.nloc(site[0]), name, want,
+                                                                                        z["callee"]["name"], name))
+                elif o is not fn:
                     # the other search sits in a helper: evidence only if the helper's result is the leaf this lookup searches
                     # and the helper has no search of the wanted kind beside it (a helper shared by lower_bound and upper_bound
                     # may choose the search by a flag)
